@@ -190,6 +190,10 @@ class mapper(object):
         n = self.__map.lastw
         try:
             i = K.index(k.a)
+            if self.__map[k.a].size < k.size:
+                # the last write at k defines only a part of what is read:
+                # the rest may have been written before through another pointer.
+                i = -1
         except ValueError:
             # k has never been written to explicitly
             # but it is maybe in a zone that was written to
